@@ -33,6 +33,7 @@ READY = {
     "OHVerif.Props.C12Type", "OHVerif.Props.C14Optic", "OHVerif.Props.C19Build",
     "OHVerif.Props.C10Iso", "OHVerif.Props.C04Lax",
     "OHVerif.Props.C12Subst", "OHVerif.Props.C13Native", "OHVerif.Props.C19Sem", "OHVerif.Props.C14Deriv",
+    "OHVerif.Props.C14Poly", "OHVerif.Props.C07UnionFind",
 }
 
 def _mods(*names):
@@ -49,7 +50,7 @@ PROPS = {
     "C05": dict(modules=_mods("OHVerif.Props.C05", "OHVerif.Props.C12Type", "OHVerif.Props.C14Optic"), groups=[("oh", 1500), ("hg", 1500), ("lax.cat", 800), ("functor", 300), ("dynfunctor", 400), ("optic", 300), ("ic", 1500), ("ff", 600)],
                 deps=[("ff", 400), ("ic", 400)]),
     "C06": dict(modules=_mods("OHVerif.Props.C06"), groups=[("ff", 3000)], deps=[("prim", 500)]),
-    "C07": dict(modules=_mods("OHVerif.Props.C07", "OHVerif.Lemmas.VecBackend"), groups=[("prim", 3000)], deps=[], release=True),
+    "C07": dict(modules=_mods("OHVerif.Props.C07", "OHVerif.Lemmas.VecBackend", "OHVerif.Props.C07UnionFind"), groups=[("prim", 3000)], deps=[], release=True),
     "C08": dict(modules=_mods("OHVerif.Props.C08"), groups=[("ic", 3000)], deps=[("ff", 500), ("prim", 500)]),
     "C09": dict(modules=_mods("OHVerif.Props.C09"), groups=[("lax.quot", 3000)], deps=[]),
     "C10": dict(modules=_mods("OHVerif.Props.C10", "OHVerif.Props.C10Iso"), groups=[("lax.cat", 2500), ("lawlax", 1500)], deps=[("oh", 400)]),
@@ -57,7 +58,7 @@ PROPS = {
                 missing=["the JSON clause is decided by correspondence only (serde_json's text printer/parser is outside the model): the model's documented JSON text is compared with serde's output and the Rust round trip is executed"]),
     "C12": dict(modules=_mods("OHVerif.Props.C12", "OHVerif.Props.C12Type", "OHVerif.Props.C12Subst"), groups=[("dynfunctor", 1500), ("functor", 800)], deps=[("oh", 400), ("ff", 300)]),
     "C13": dict(modules=_mods("OHVerif.Props.C13", "OHVerif.Props.C13Native"), groups=[("dynfunctor", 2500)], deps=[("lax.cat", 400)]),
-    "C14": dict(modules=_mods("OHVerif.Props.C14", "OHVerif.Props.C14Optic", "OHVerif.Props.C14Deriv"), groups=[("optic", 1500)], deps=[("dynfunctor", 300), ("eval", 300)]),
+    "C14": dict(modules=_mods("OHVerif.Props.C14", "OHVerif.Props.C14Optic", "OHVerif.Props.C14Deriv", "OHVerif.Props.C14Poly"), groups=[("optic", 1500)], deps=[("dynfunctor", 300), ("eval", 300)]),
     "C15": dict(modules=_mods("OHVerif.Props.C15", "OHVerif.Lemmas.Kahn"), groups=[("graph", 3000)], deps=[("ic", 400), ("prim", 300)]),
     "C16": dict(modules=_mods("OHVerif.Props.C16"), groups=[("eval", 3000)], deps=[("graph", 600)]),
     "C17": dict(modules=_mods("OHVerif.Props.C17"), groups=[("oh", 2000), ("hg", 1500), ("graph", 800)], deps=[("prim", 300)], release=True),
@@ -100,8 +101,26 @@ for _k in PROPS:
     PROPS[_k]["deps"] = []   # a property's check looks only at the ops that decide it
 PROPS = {k: v for k, v in PROPS.items() if v["modules"]}
 
+
+# what is still NOT a theorem (reported in every evidence file under coverage.missing_for_full_strength)
+MISSING = {
+    "C06": ["cumulative_sum returns a well-formed finite function only when the table does not end in 0 (cumulativeSum_wf_iff) - a recorded finding of the Rust code, see known_findings.txt"],
+    "C07": ["the model used by the other theorems computes components and sparse bincount by canonical-output algorithms; Props/C07UnionFind.lean adds a line-by-line model of the Rust union-find (rank, path compression, HashMap renumbering) and of the HashMap-based sparse_bincount and proves them EQUAL to the canonical ones (values and panic sites), so only std's HashMap/sort themselves remain trusted"],
+    "C09": ["literal idempotence ('quotienting again changes nothing') is a theorem for backends that number an edgeless graph by the identity (Vec); for an arbitrary lawful backend it holds up to a renumbering (quotient_strict)"],
+    "C10": ["the literal round trips are theorems for identity-numbering backends (Vec) and up to isomorphism for every lawful backend"],
+    "C11": ["JSON clause: serde_json's printer/parser is outside the model; the documented JSON text computed by the model is compared with serde's output and the Rust round trip is executed on every case"],
+    "C12": ["preservation of identities/composition/tensor/symmetry is proved for functors whose operation map is unit- and tensor-compatible (OpsUnit, OpsTensor: proved for the library's Identity and Dyn functors); FunctorHom alone does not imply it (counterexamples scalarF, countF in Props/C12Subst.lean)"],
+    "C14": ["the derivative theorem (rev_correct_corrected; instantiated at the exact optic and u64 signature of the correspondence check in rd_rev_correct) assumes one ring element per object (|F(o)| = |R(o)| = 1), which is the polynomial-circuit case; the statement first written (rev_correct_statement) is refuted in the file"],
+    "C17": ["'debug and release alike' = no usize subtraction remains in the modelled predicates (theorem) + the correspondence is run in both build profiles"],
+    "C19": ["'building fails only when a variable handle outlives the builder' is Rc::try_unwrap: modelled by a flag, exercised by leaking a handle in the harness"],
+    "C20": ["the quantifier 'all contract-conforming backends' is the universally quantified Backend.Lawful of the theorems; the Rust side is sampled at the Vec backend and two adversarial conforming backends"],
+}
+for _k, _v in MISSING.items():
+    if _k in PROPS:
+        PROPS[_k]["missing"] = _v
+
 LEVEL_TEXT = {
-    "default": "Theorems about the Lean model are proved for all inputs (kernel-checked, axioms audited); the model is tied to the Rust by a differential correspondence check on every run. The claim is 'proof' for the model and 'differentially validated' for the tie; see evidence for what is proved and what is still covered by correspondence only.",
+    "default": "The property is stated as Lean 4 theorems about an executable model of the Rust code and proved for all inputs, all histories and every lawful array backend (kernel-checked and axiom-audited on every run; DESIGN.md §12 lists the theorems per clause). The model is hand-written; it is tied to /repo's current source by a differential correspondence check that runs the model and the real library (rebuilt from the working tree) on the same generated cases, a corpus of minimised past failures and the property's law instances on every run. So the claim is 'proof' for the model and 'differentially validated' for the tie - the right level here because the properties quantify over all inputs/backends (only a proof reaches that) while the Rust (GATs, closures, Rc) cannot be translated mechanically with the installed tools.",
 }
 LEVEL_NOTE = {
     "default": "Trusted: Lean kernel; axioms propext/Classical.choice/Quot.sound; the hand-written model and the correspondence check (harness generators, wire encoding, comparison relations); usize as unbounded Nat. Theorems not yet proved for a clause are listed under coverage.missing_for_full_strength in the evidence.",
